@@ -36,6 +36,8 @@ def valid_case(rng, several=False):
         if rng.random() < 0.25:
             case['types'][tn]['FuelModel'] = dict(gap_thickness=0.0, clad_material='ht9', r_frac=[0.0, 0.33333, 0.66667],
                                                   pu_frac=[0.2, 0.2, 0.2], zr_frac=[0.1, 0.1, 0.1], porosity=[0.25, 0.25, 0.25])
+        if rng.random() < 0.2:
+            case['types'][tn]['dummy_pin'] = [1, 2]          # (a schema key: pins without power)
     gi.random_power(rng, case)
     if rng.random() < 0.5:
         gi.random_setup_options(rng, case)
@@ -49,7 +51,8 @@ def valid_case(rng, several=False):
 FAULTS = ["bare-rods-wire-only-correlation", "bare-rods-zero-pitch-wire-only-correlation", "power-missing-assembly", "outlet-temp-below-inlet", "bypass-gap-flow-fraction-out-of-range", "bypass-gap-loss-coeff-given", "bypass-fraction-one", "negative-shape-factor", "pinmodel-rfrac-out-of-range", "fuel-rfrac-out-of-range", "fuel-negative-porosity", "fuel-legacy-gap-too-thick", "power-duplicate-item", "spacergrid-cdd-coeff-count", "spacergrid-no-position-in-bundle", "zero-wire-pitch", "axial-regions-cover-core", "power-wrong-count-later-assembly", "power-short-later-assembly", "duct-zero-wall", "pins-do-not-fit", "wire-too-thick", "clad-too-thick", "zero-pin-pitch", "negative-pin-diameter", "zero-duct-ftf",
           "duct-ge-pitch", "unequal-outer-ducts", "axial-regions-overlap", "axial-region-inverted", "missing-bc", "negative-flowrate",
           "unknown-material", "unknown-correlation", "negative-power", "power-gap-between-cells", "power-wrong-pin-count",
-          "flow-gap-no-bypass", "zero-core-length", "odd-duct-values", "zero-step-request"]
+          "flow-gap-no-bypass", "zero-core-length", "odd-duct-values", "zero-step-request",
+          "axial-region-no-coolant", "axial-region-unknown-model"]
 
 
 GEOMETRY_FAULTS = ["duct-zero-wall", "wire-too-thick", "clad-too-thick", "zero-pin-pitch", "negative-pin-diameter", "zero-duct-ftf", "odd-duct-values"]
@@ -141,6 +144,17 @@ def inject(rng, case, fault, lowfid=False, near=False, excess=0.01):
         zc = round(rng.uniform(0.3, 0.7) * L, 4)
         t['AxialRegion'] = [dict(name='lower', z_lo=0.0, z_hi=zc, vf_coolant=0.3, model='simple'),
                             dict(name='upper', z_lo=zc, z_hi=L, vf_coolant=0.3, model='simple')]
+    elif fault == "axial-region-no-coolant":
+        # a region without any coolant volume cannot pass the flow (every temperature becomes NaN)
+        if t.get('use_low_fidelity_model'):
+            return None
+        L = c['core']['length']
+        t['AxialRegion'] = [dict(name='lower', z_lo=0.0, z_hi=round(0.2 * L, 4), vf_coolant=0.0, model=rng.choice(['simple', '6node']))]
+    elif fault == "axial-region-unknown-model":
+        if t.get('use_low_fidelity_model'):
+            return None
+        L = c['core']['length']
+        t['AxialRegion'] = [dict(name='upper', z_lo=round(0.8 * L, 4), z_hi=L, vf_coolant=0.3, model=rng.choice(['porous', 'Simple', '6-node']))]
     elif fault == "axial-region-inverted":
         L = c['core']['length']
         t['AxialRegion'] = [dict(name='lower', z_lo=0.3 * L, z_hi=0.1 * L, vf_coolant=0.3, model='simple')]
